@@ -69,6 +69,10 @@ type _LexerStateMachine struct {
 	state     int
 	mode      []uint32
 	modeStack _Stack[[]uint32]
+
+	// pending is true while text accumulated by fragments is waiting for a
+	// rule that emits or discards it.
+	pending bool
 }
 
 func (l *_LexerStateMachine) PushRune(r rune) int {
@@ -145,17 +149,26 @@ func (l *_LexerStateMachine) PushRune(r rune) int {
 		case 3: // Accept
 			l.token = int(mode[i+1])
 			l.state = 0
+			l.pending = false
 			return _lexerAccept
 		case 4: // Discard
 			l.state = 0
+			l.pending = false
 			return _lexerDiscard
 		case 5: // Accum
 			l.state = 0
+			l.pending = true
 			return _lexerTryAgain
 		}
 	}
 
 	if l.state == 0 && r == -1 {
+		if l.pending {
+			// The input ends in the middle of a construct: the accumulated
+			// text belongs to no token. Report it instead of dropping it.
+			l.pending = false
+			return _lexerError
+		}
 		return _lexerEOF
 	}
 
@@ -165,6 +178,7 @@ func (l *_LexerStateMachine) PushRune(r rune) int {
 func (l *_LexerStateMachine) Reset() {
 	l.mode = nil
 	l.state = 0
+	l.pending = false
 }
 
 func (l *_LexerStateMachine) Token() int {
